@@ -46,6 +46,9 @@ fn main() {
         } else {
             "<non-string panic payload>".to_string()
         };
+        if std::env::var_os("VERIF_BACKTRACE").is_some() {
+            eprintln!("panic at {}: {}\n{}", loc, msg, std::backtrace::Backtrace::force_capture());
+        }
         LAST_PANIC.with(|p| *p.borrow_mut() = Some(format!("{}: {}", loc, msg)));
     }));
     let args: Vec<String> = std::env::args().collect();
